@@ -3,6 +3,7 @@ package main
 // C06 — inline text / moves() hoisting; C09 — text emission; C11 — AutoVar.
 
 import (
+	"go/token"
 	"fmt"
 	"go/types"
 	"sort"
@@ -539,6 +540,46 @@ func c06c(c *Ctx) {
 			}
 		}
 		c.Check(okT && okM, "impData.add/appends-both", c.W.FuncPos(addFn), "add merges texts and movements of its argument into the receiver", "impData.add does not append both other.texts and other.movements to the receiver")
+		// ... always: no return of add is reachable without both merges (an early return for "nothing
+		// to merge" that looks at one list only loses the other)
+		for _, fld := range []string{"texts", "movements"} {
+			var sinks []ssa.Instruction
+			for _, st := range storesToField(addFn, "parser", "impData", fld) {
+				if strings.HasPrefix(c.term(addFn, st.Val), "builtin:append($0."+fld+",$1."+fld) {
+					sinks = append(sinks, st)
+				}
+			}
+			_, skip := existsPath(pathQuery{from: entry(addFn), exitIs: true, edgeOK: argNotNilEdge(addFn.Params[1]), avoid: func(x ssa.Instruction) bool {
+				for _, k := range sinks {
+					if k == x {
+						return true
+					}
+				}
+				return false
+			}})
+			c.Check(len(sinks) > 0 && !skip, "impData.add/always-merges-"+fld, c.W.FuncPos(addFn), "every call of add merges the "+fld, "impData.add can return without merging other."+fld+": inline "+fld+" collected by a sub-parser would be lost on that path")
+		}
+		for _, f2 := range []*ssa.Function{addImp} {
+			for _, callee2 := range []string{"parser.Parser.addImplicitTexts", "parser.Parser.addImplicitMovements"} {
+				g := c.Fn(callee2)
+				if g == nil {
+					continue
+				}
+				var sinks []ssa.Instruction
+				for _, ci := range callsToIn(f2, g) {
+					sinks = append(sinks, ci.(ssa.Instruction))
+				}
+				_, skip := existsPath(pathQuery{from: entry(f2), exitIs: true, edgeOK: argNotNilEdge(f2.Params[1]), avoid: func(x ssa.Instruction) bool {
+					for _, k := range sinks {
+						if k == x {
+							return true
+						}
+					}
+					return false
+				}})
+				c.Check(len(sinks) > 0 && !skip, "addImplicitData/always-calls-"+g.Name(), c.W.FuncPos(f2), "addImplicitData always registers both kinds", "addImplicitData can return without calling "+g.Name()+": hoisted data of that kind would never be labelled and defined")
+			}
+		}
 	}
 	{
 		at := c.Fn("parser.Parser.addImplicitTexts")
@@ -900,6 +941,30 @@ func (c *Ctx) mergedInOrder(fn *ssa.Function, s ssa.Value, srcName map[ssa.Value
 		}
 		return "the inline data of " + srcName[s] + " is still unmerged when " + producers[w] + " (" + c.W.Pos(w.Pos()) + ") parses further inline data: generated labels would not be numbered in order of first appearance"
 	}())
+}
+
+// argNotNilEdge prunes the edge on which parameter p was found to be nil (there is nothing to merge then).
+func argNotNilEdge(p *ssa.Parameter) func(*ssa.BasicBlock, int) bool {
+	return func(b *ssa.BasicBlock, succ int) bool {
+		if len(b.Instrs) == 0 {
+			return true
+		}
+		ifi, ok := b.Instrs[len(b.Instrs)-1].(*ssa.If)
+		if !ok {
+			return true
+		}
+		bo, ok := ifi.Cond.(*ssa.BinOp)
+		if !ok || !(bo.X == ssa.Value(p) && isNilConst(bo.Y) || bo.Y == ssa.Value(p) && isNilConst(bo.X)) {
+			return true
+		}
+		switch bo.Op {
+		case token.EQL:
+			return succ != 0
+		case token.NEQ:
+			return succ != 1
+		}
+		return true
+	}
 }
 
 // paramIndexOfTerm: k for a term "$k", -1 otherwise.
